@@ -67,3 +67,6 @@ def standins(tier, seed):
                                               + ('; without ' + ', '.join(sorted(heavy)) if d_of(c) >= 5 else ''),
              'job': {'kind': 'storage', 'module': 'standins.jobs2', 'ops': c.get('ops') or [o for o in ops if d_of(c) < 5 or o not in heavy], 'study': not c.get('ops'), 'configs': [c], 'seed': seed + i}}
             for i, c in enumerate(cfgs)]
+
+
+replay = K.replay_any
